@@ -6,6 +6,7 @@ use std::io::{self, BufRead, Write};
 
 mod pure;
 mod smtp;
+mod oracles;
 
 pub fn hex(b: &[u8]) -> String {
     let mut s = String::with_capacity(b.len() * 2 + 1);
@@ -47,6 +48,18 @@ fn main() {
                 match r {
                     Ok(s) => writeln!(out, "{}", s).unwrap(),
                     Err(_) => writeln!(out, "PANIC").unwrap(),
+                }
+            }
+        }
+        "alnum" => {
+            // ranges of char::is_alphanumeric, one "lo hi" per line (oracle table for the model driver)
+            let mut start: Option<u32> = None;
+            for c in 0u32..=0x110000 {
+                let a = char::from_u32(c).map(|ch| ch.is_alphanumeric()).unwrap_or(false);
+                match (a, start) {
+                    (true, None) => start = Some(c),
+                    (false, Some(s)) => { println!("{} {}", s, c - 1); start = None; }
+                    _ => {}
                 }
             }
         }
